@@ -188,6 +188,7 @@ func H_C06_Ante() {
 	tx := &model.Tx{Msgs: spec.Msgs, Fee: fee, Payer: Addr(0), Gas: 200000}
 	locked := books.Locked[0]
 	spent := books.Spent[0]
+	wl0, wl1 := k.AddressIsWhitelisted(ctx, Addr(0)), k.AddressIsWhitelisted(ctx, Addr(1))
 
 	var err error
 	panicked := rt.Catch(func() { _, err = ae.Chain(ctx, tx, false) })
@@ -216,11 +217,12 @@ func H_C06_Ante() {
 		unlocked = rt.IntMin(feeNund, locked)
 		rt.Reach("admitted-wrk-or-beacon")
 	}
-	rt.Assert("C05.locked-reduced-by-min(fee,locked)-only-for-wrk/beacon", rt.IntEq(nl, rt.IntSub(locked, unlocked)))
+	rt.Assert("C05+C06.locked-reduced-by-min(fee,locked)-only-for-wrk/beacon", rt.IntEq(nl, rt.IntSub(locked, unlocked)))
 	rt.Assert("C05.unlocked-recorded-as-spent", rt.IntEq(ns, rt.IntAdd(spent, unlocked)))
 	rt.Assert("C05.unlocked-becomes-liquid", rt.IntEq(ae.Bank.Bal(Addr(0), "nund"), rt.IntAdd(liquid, unlocked)))
 	rt.Assert("C05.other-account-untouched", rt.And(rt.IntEq(k.GetLockedUndAmountForAccount(ctx, Addr(1)).Amount, books.Locked[1]), rt.IntEq(k.GetSpentEFUNDAmountForAccount(ctx, Addr(1)).Amount, books.Spent[1])))
-	rt.Assert("C04+C17.books-balance", booksBalanced(ae.E, books, rt.IntSub(locked, unlocked), books.Locked[1], rt.IntAdd(spent, unlocked), books.Spent[1]))
+	rt.Assert("C13+C18.paying-fees-changes-no-whitelist-entry", wl0 == k.AddressIsWhitelisted(ctx, Addr(0)) && wl1 == k.AddressIsWhitelisted(ctx, Addr(1)))
+	rt.Assert("C04+C06+C14+C15+C17.books-balance", booksBalanced(ae.E, books, rt.IntSub(locked, unlocked), books.Locked[1], rt.IntAdd(spent, unlocked), books.Spent[1]))
 	rt.Assert("C02.ante-mints-nothing", rt.And(ae.Bank.Minted.IsZero(), ae.Bank.Burned.IsZero()))
 	_ = enttypes.ModuleName
 }
